@@ -540,26 +540,6 @@ def _server_class(mod):
     return hits[0]
 
 
-def _request_class(mod):
-    """the class of one TFTP read transfer: by its name if it still has it, else the class of the module whose
-    constructor takes the ten or more values a transfer needs"""
-    c = getattr(mod, "_TftpReadRequest", None)
-    if c is not None:
-        return c
-    import inspect
-    hits = []
-    for v in vars(mod).values():
-        if isinstance(v, type) and v.__module__ == mod.__name__ and not issubclass(v, BaseException):
-            try:
-                if len(inspect.signature(v.__init__).parameters) >= 11:
-                    hits.append(v)
-            except (TypeError, ValueError):
-                pass
-    if len(hits) != 1:
-        raise LookupError("transfer class of %s not found" % mod.__name__)
-    return hits[0]
-
-
 class ConcScenario:
     """one server object, caller threads each running a list of start/stop calls"""
     def __init__(self, kind, pre, ops):
@@ -758,41 +738,45 @@ def ack(n):
 
 
 def _xfer_private(cls, c, x, script, clock, log, nsock, options, handler, uncaught):
-    shim = types.SimpleNamespace(**{k: getattr(real_socket, k) for k in dir(real_socket) if not k.startswith("__")})
-
-    def mk(**k):
+    def mk(*a, **k):
         if not c["sock_ok"]:
             raise OSError(24, "Too many open files")
         nsock[0] += 1
         return _Sock(list(script), clock, log, c["send_err_raises"], c.get("fault"))
-    shim.socket = mk
     old_hook = threading.excepthook
     threading.excepthook = lambda args: uncaught.append(args.exc_type.__name__)
-    old = (S.socket, S.time)
-    S.socket = shim
-    S.time = types.SimpleNamespace(monotonic=lambda: clock[0])
+    threads = []
+    # socket, time, threading and the loggers of the module, wherever and however it imported them
+    undo, loggers = fake_net.patch_module(S, clock, mk, None, threads)
     hdl = fake_net._Log(log)
-    S.logger.addHandler(hdl)
-    old_level, old_prop = S.logger.level, S.logger.propagate
-    S.logger.setLevel(logging.INFO)
-    S.logger.propagate = False
+    saved = [(lg, lg.level, lg.propagate) for lg in loggers]
+    for lg in loggers:
+        lg.addHandler(hdl)
+        lg.setLevel(logging.INFO)
+        lg.propagate = False
     logging.disable(logging.NOTSET)
     ended = 1
-    before = set(threading.enumerate())
     try:
-        r = cls("f", P.TransferMode.OCTET, options, fake_net.CLI, fake_net.SRV, handler, None,
-                               2, 30, 1, 65464, None if x == "overflow" else 0)
-        th = getattr(r, "_thread", None)
-        ths = [th] if th is not None else [t_ for t_ in threading.enumerate() if t_ not in before]
-        for th in ths:
-            th.join(120 if x == "overflow" else 20)
+        cls("f", P.TransferMode.OCTET, options, fake_net.CLI, fake_net.SRV, handler, None,
+            2, 30, 1, 65464, None if x == "overflow" else 0)
+        for th in list(threads):
+            end = time.time() + 5
+            while True:
+                try:
+                    th.join(120 if x == "overflow" else 20)
+                    break
+                except RuntimeError:          # created, not yet started
+                    if time.time() > end:
+                        break
+                    time.sleep(0.0005)
             if th.is_alive():
                 ended = 0
     finally:
-        S.socket, S.time = old
-        S.logger.removeHandler(hdl)
-        S.logger.setLevel(old_level)
-        S.logger.propagate = old_prop
+        undo()
+        for lg, lvl, prop in saved:
+            lg.removeHandler(hdl)
+            lg.setLevel(lvl)
+            lg.propagate = prop
         logging.disable(logging.CRITICAL)
         threading.excepthook = old_hook
     return ended
